@@ -389,8 +389,9 @@ def rem_atoms(t):
 def multiple_cases(tier):
     cs = []
     types = [('int', True, False), ('uint', False, False), ('float', True, True), ('double', True, True)]
+    types += [('int8', True, False), ('uint8', False, False), ('int16', True, False), ('uint16', False, False)]      # the property quantifies over all 8- and 16-bit values
     if tier == 'thorough':
-        types += [('int8', True, False), ('uint8', False, False), ('int64', True, False), ('uint64', False, False)]
+        types += [('int64', True, False), ('uint64', False, False)]
     fns = [('ceilMultiple', 'ceil'), ('floorMultiple', 'floor'), ('roundMultiple', 'round'), ('nextMultiple', 'ceil'), ('prevMultiple', 'floor')]
     for T, sgn, isf in types:
         ty = G.scalar(T)
@@ -441,21 +442,41 @@ def multiple_judge(k, name, ty, w, sgn, isf, dirn, fn_):
                 continue
             ra = rats[0]
             rterm = rem_of(P.atom_key(ra))
-            tdiv = topoly(cx, rterm.args[-2])
-            if topoly(cx, rterm.args[-1]) != M:
+            # the dividend and the divisor are read at the width the remainder is computed in (the promoted width for the 8- and 16-bit types), where
+            # the input lanes stand for their integer values
+            rw = w if isf else rterm.w
+            dterm = rterm.args[-2]
+            if not isf and dterm.op == ('sext' if sgn else 'zext') and dterm.args[0].op != 'in' and dterm.args[0].w == w:
+                # the dividend is the extension of a value computed at the width of x (the compiler narrowed the promoted arithmetic): it is the integer
+                # s x + c wherever the narrow computation does not wrap, which the range check below decides from the path facts
+                dterm, rw = dterm.args[0], w
+            Xr = X if isf else Poly.atom(('in', 'x', 0, w), 1 << rw)
+            Mr = M if isf else Poly.atom(('in', 'm', 0, w), 1 << rterm.w)
+            tdiv = topoly(cx, dterm) if isf else int_poly(cx, dterm, rw)
+            if (topoly(cx, rterm.args[-1]) if isf else int_poly(cx, rterm.args[-1], rterm.w)) != Mr:
                 res.append(R.ob(pid, 'multiple', R.UNDECIDED, 'remainder by something else than m', kernel=k.source()))
                 continue
             # dividend t = s*x + c0
             s_, c0 = None, None
             for sg in (1, -1):
-                d = tdiv - X.scale(sg)
+                d = tdiv - Xr.scale(sg)
                 if d.is_const():
                     s_, c0 = sg, d.cval() if d.t else 0
-                    if not isf and c0 >= (1 << (w - 1)):
-                        c0 -= 1 << w
+                    if not isf and c0 >= (1 << (rw - 1)):
+                        c0 -= 1 << rw
             if s_ is None:
                 res.append(R.ob(pid, 'multiple', R.UNDECIDED, 'dividend %s is not +-x + c' % P.show_poly(tdiv, limit=3), kernel=k.source()))
                 continue
+            if not isf and (s_, c0) != (1, 0) and rw <= w:
+                # the dividend s x + c is computed at the width of x itself, modulo 2^w: it is the integer s x + c only where that does not wrap.  The
+                # range of x on the path must exclude the wrap (a wrap of signed arithmetic of the full-width types is undefined behaviour, C20's
+                # subject, but a narrowing conversion wraps legitimately, so no appeal to undefinedness is made here)
+                xlo, xhi = x_range(facts, xa, w, sgn)
+                vals = [s_ * xlo + c0, s_ * xhi + c0]
+                tlo, thi = (-(1 << (w - 1)), (1 << (w - 1)) - 1) if sgn else (0, (1 << w) - 1)
+                if min(vals) < tlo or max(vals) > thi:
+                    res.append(R.ob(pid, 'multiple', R.UNDECIDED, 'the dividend %s*x%+d is computed modulo 2^%d and wraps for some x of the path (x in [%d, %d])  [%s]' % (s_, c0, w, xlo, xhi, desc), kernel=k.source()))
+                    continue
             # x = s*(q*m + r - c0)   (division relation t = q m + r, q an integer)
             Q_ = Poly.atom(('quot',), mod)
             Rr = Poly.var(ra, mod) if not isf else Poly.var(ra)
@@ -480,8 +501,48 @@ def multiple_judge(k, name, ty, w, sgn, isf, dirn, fn_):
                 res.append(R.ob(pid, 'multiple', R.REFUTED, 'result - x = %s: %s  [%s]' % (P.show_poly(W, limit=3), why, desc), where=R.where_of(it, t), kernel=k.source()))
             else:
                 res.append(R.ob(pid, 'multiple', R.UNDECIDED, 'result - x = %s: %s  [%s]' % (P.show_poly(W, limit=3), why, desc), kernel=k.source()))
+        if not isf and w < 32 and any(r_['status'] == R.UNDECIDED for r_ in res):
+            # 8- and 16-bit types: the C++ arithmetic is done on promoted operands and cannot overflow, so every input with a representable answer is in the
+            # domain; an undecided path is refuted when the derived term, evaluated exactly at a corner of the type's range, is not the multiple the
+            # direction defines (witness search: it only ever turns UNDECIDED into REFUTED)
+            wt = corner_witness(t, w, sgn, dirn)
+            if wt:
+                for r_ in res:
+                    if r_['status'] == R.UNDECIDED:
+                        r_['status'] = R.REFUTED
+                        r_['detail'] += '  -- ' + wt
+                        r_['where'] = R.where_of(it, t)
+                        break
         return res
     return judge
+
+
+def corner_witness(t, w, sgn, dirn):
+    from laneflow import ceval as CE
+    lo, hi = (-(1 << (w - 1)), (1 << (w - 1)) - 1) if sgn else (0, (1 << w) - 1)
+    x_in, m_in = tm.inp('x', 0, w), tm.inp('m', 0, w)
+    xs = [lo, lo + 1, lo + 2, hi, hi - 1, hi - 2] + ([-2, -1, 0, 1, 2] if sgn else [0, 1, 2])
+    for mv in (3, 5, 7, 9, 10, 100, 2, 1):
+        for xv in xs:
+            fl = (xv // mv) * mv
+            ce = -((-xv) // mv) * mv
+            if dirn == 'floor':
+                ok = {fl}
+            elif dirn == 'ceil':
+                ok = {ce}
+            else:
+                ok = {fl} if 2 * (xv - fl) < mv else {ce} if 2 * (xv - fl) > mv else {fl, ce}
+            if not all(lo <= v <= hi for v in (ok | {fl, ce} if dirn == 'round' else ok)):
+                continue                # the answer (or an intermediate enclosing multiple) is not representable: outside the domain
+            try:
+                got = CE.evaluate(t, {x_in: xv & ((1 << w) - 1), m_in: mv})
+            except CE.NoValue:
+                continue
+            if sgn and got >= 1 << (w - 1):
+                got -= 1 << w
+            if got not in ok:
+                return 'at x = %d, m = %d the result is %d, the %s multiple is %s' % (xv, mv, got, {'ceil': 'next', 'floor': 'previous', 'round': 'nearest'}[dirn], ' or '.join(map(str, sorted(ok))))
+    return None
 
 
 def rem_of(key):
@@ -533,6 +594,33 @@ def linear_in(Wp, ma, ra):
         else:
             return None
     return a, b, c
+
+
+def x_range(facts, xa, w, sgn):
+    """[lo, hi] of the integer x on the path: the type's range narrowed by the path facts  k*x + c rel 0"""
+    lo, hi = (-(1 << (w - 1)), (1 << (w - 1)) - 1) if sgn else (0, (1 << w) - 1)
+    for e_, rel in facts:
+        if len(e_.t) <= 2 and set(a for m_ in e_.t for a in m_) <= {xa} and e_.t.get((xa,), 0):
+            kx = e_.t.get((xa,), 0)
+            cc = e_.t.get((), 0)
+            if e_.mod:
+                kx = kx - e_.mod if kx >= e_.mod // 2 else kx
+                cc = cc - e_.mod if cc >= e_.mod // 2 else cc
+            if abs(kx) != 1:
+                continue
+            bound = -cc if kx == 1 else cc          # k x + c rel 0  <=>  x rel' -c/k
+            r2 = rel if kx > 0 else {'<': '>', '<=': '>=', '>': '<', '>=': '<=', '==': '==', '!=': '!='}.get(rel, rel)
+            if r2 == '>':
+                lo = max(lo, bound + 1)
+            elif r2 == '>=':
+                lo = max(lo, bound)
+            elif r2 == '<':
+                hi = min(hi, bound - 1)
+            elif r2 == '<=':
+                hi = min(hi, bound)
+            elif r2 == '==':
+                lo, hi = max(lo, bound), min(hi, bound)
+    return lo, hi
 
 
 def r_range(facts, ra, xa, ma, s_, c0, sgn, isf):
@@ -718,14 +806,31 @@ def window(lin, rng, dirn, isf, facts, ra, ma, wit=None):
 
 
 def int_poly(cx, t, w):
-    """integer term under a decision context: selections resolved by the context, arithmetic as polynomials mod 2^w, remainders as atoms"""
+    """integer term under a decision context, read modulo 2^w: selections resolved by the context, arithmetic as polynomials mod 2^w, remainders as atoms.
+    Truncations of wider arithmetic are read through (arithmetic commutes with reduction mod 2^w); an extension of a narrower INPUT lane read at a larger
+    width is the lane's atom (its signed value for sext, unsigned for zext: the promoted operand of the C++ expression); an extension of anything else
+    is opaque."""
     if t.op == 'select':
         return int_poly(cx, t.args[1] if cx.decide(t.args[0]) else t.args[2], w)
     if t.op == 'const':
-        return Poly.const(t.args[0], 1 << w)
+        return Poly.const(t.args[0] & ((1 << w) - 1), 1 << w)
     if t.op == 'in':
         return Poly.atom(('in', t.args[0], t.args[1], t.w), 1 << w)
-    if t.op in ('add', 'sub', 'mul'):
+    if t.op == 'slice' and t.args[1] == 0 and t.w >= w:
+        return int_poly(cx, t.args[0], w)
+    if t.op == 'concat' and all(p_.op == 'const' and p_.args[0] == 0 for p_ in t.args[1:]):
+        u = t.args[0]            # zero extension
+        if u.w >= w:
+            return int_poly(cx, u, w)
+        if u.op == 'in':
+            return Poly.atom(('in', u.args[0], u.args[1], u.w), 1 << w)
+    if t.op in ('sext', 'zext'):
+        u = t.args[0]
+        if u.w >= w:
+            return int_poly(cx, u, w)
+        if u.op == 'in':
+            return Poly.atom(('in', u.args[0], u.args[1], u.w), 1 << w)
+    if t.op in ('add', 'sub', 'mul') and t.w >= w:
         a, b = int_poly(cx, t.args[0], w), int_poly(cx, t.args[1], w)
         return a + b if t.op == 'add' else a - b if t.op == 'sub' else a * b
     return Poly.atom(('z', ('T', t)), 1 << w)
